@@ -853,6 +853,17 @@ class Printer:
             self.fire('call:contains-as-find')
             vt_ = self.e(args[0])
             return '(%s(&%s, %s) != %s.size)' % (fn, vt_, self.e(self.skip(args[1])), vt_)
+        if nm == 'binary_search' and len(args) == 3 and self.iter_bound(args[0], 'begin') and self.iter_bound(args[0], 'begin') == self.iter_bound(args[1], 'end'):
+            # std::binary_search over a whole vector: the algorithm itself (lower_bound by halving, as in libstdc++), whatever the
+            # order of the elements is -- on a vector that is not sorted its answer is whatever that algorithm computes; bounded units only
+            if not self.unit.get('unwind'):
+                self.brk('binary_search needs a bounded unit (the search loop is executed)', n)
+            vtxt = self.iter_bound(args[0], 'begin')
+            vnode = self.iter_strip(args[0])['inner'][0]['inner'][0]
+            fn = '%s_bsearch' % self.ctype_of(vnode)
+            self.called[fn] += 1
+            self.fire('call:std-binary-search')
+            return '%s(&%s, %s)' % (fn, vtxt, self.e(self.skip(args[2])))
         if nm == 'distance' and len(args) == 2 and self.iter_local(args[1]):
             nm_, v_ = self.iter_local(args[1])
             if self.iter_bound(args[0], 'begin') == v_:
